@@ -1306,10 +1306,407 @@ def run_datasets(ctx):
             ctx.disagree('DatasetCollection', {'kind': 'dataset', 'ops': ops}, a, list(b))
 
 
+# ============================================================== history probes (no model: "the result is a
+# function of the current state / inputs only", see tools/HARDENING.md)
+def run_probes(ctx):
+    probe_collections(ctx)
+    probe_keys(ctx)
+    probe_stages(ctx)
+    probe_config(ctx)
+    probe_datasets(ctx)
+
+
+def _coll_obs(c, names):
+    """every public observable of a named collection (errors as type names)"""
+    def rc(f):
+        try:
+            return f()
+        except Exception as ex:
+            return type(ex).__name__
+    out = [len(c), [id(o) for o in c.objects], [id(o) for o in c], list(c.name_list), str(c) is not None]
+    for n in names:
+        out.append((rc(lambda: c.get_index_by_name(n)), rc(lambda: id(c[n])), n in c))
+    for i in range(-3, 4):
+        out.append(rc(lambda: id(c[i])))
+    for o in list(c.objects)[:3]:
+        out.append(rc(lambda: c.index(o)))
+    return out
+
+
+def probe_collections(ctx):
+    from skyllh.core.py import NamedObjectCollection, ObjectCollection
+    from skyllh.core.model import Model, ModelCollection
+    rng = ctx.rng
+
+    class Base:
+        name = None
+
+        def __init__(self, k):
+            self.name = f'n{k}'
+
+    class MBase(Model):
+        def __init__(self, k):
+            super().__init__(name=f'n{k}')
+    names = [f'n{k}' for k in range(6)] + ['zz']
+    for label, mk, newc in (('NamedObjectCollection', Base, lambda objs=None: NamedObjectCollection(objs, obj_type=Base)),
+                            ('ModelCollection', MBase, lambda objs=None: ModelCollection(objs, model_type=MBase))):
+        def bad(site, kind, detail):
+            ctx.violation(f'{label}.{site}', kind, detail, case={'kind': 'probe', 'part': 'collections', 'class': label},
+                          predicate='the collection is a function of its own operation history only')
+
+        def twin_eq(c, want, where):
+            """compare with a freshly built twin holding the expected objects (read twice: repeat)"""
+            t = newc()
+            for o in want:
+                t.add(o)
+            a, b, r = _coll_obs(c, names), _coll_obs(c, names), _coll_obs(t, names)
+            if a != b:
+                bad('observables', 'repeat-differs', where)
+            if a != r:
+                bad('observables', 'differs-from-fresh-twin', where)
+        objs = [mk(k) for k in range(6)]
+        # --- construction from a list the caller keeps and mutates afterwards
+        for n in range(0, 4):
+            lst = objs[:n]
+            snap = list(lst)
+            c = newc(lst)
+            if lst != snap:
+                bad('__init__', 'modifies-caller-list', f'n={n}')
+            if c.objects is lst:
+                bad('__init__', 'aliases-caller-list', f'n={n}')
+            lst.append(objs[5])
+            lst[:1] = []
+            twin_eq(c, snap, f'constructor list mutated afterwards (n={n})')
+            ctx.case({'probe': 'ctor-alias', 'class': label, 'n': n})
+        # --- sequence / collection operands are inputs and are not kept
+        for opname in ('add', 'iadd', 'plus'):
+            x, y = newc(objs[:2]), newc(objs[2:4])
+            seq = [objs[4], objs[5]]
+            for other, want_add in ((seq, list(seq)), (y, list(y.objects))):
+                before_other = list(other) if isinstance(other, list) else _coll_obs(other, names)
+                xb = list(x.objects)
+                if opname == 'add':
+                    x.add(other)
+                    res, want = x, xb + want_add
+                elif opname == 'iadd':
+                    x += other
+                    res, want = x, xb + want_add
+                else:
+                    res, want = x + other, xb + want_add
+                    twin_eq(x, xb, f'left operand after x + {type(other).__name__}')
+                after_other = list(other) if isinstance(other, list) else _coll_obs(other, names)
+                if before_other != after_other:
+                    bad(opname, 'modifies-right-operand', type(other).__name__)
+                twin_eq(res, want, f'{opname} {type(other).__name__}')
+                # mutate the operand afterwards: the result must not follow
+                if isinstance(other, list):
+                    other.clear()
+                else:
+                    other.pop()
+                twin_eq(res, want, f'{opname}: right operand mutated afterwards')
+                x = newc(objs[:2])
+                ctx.case({'probe': 'operand-input', 'class': label, 'op': opname})
+        # --- the same collection on both sides
+        x = newc(objs[:3])
+        r = x + x
+        twin_eq(x, objs[:3], 'x after x + x')
+        twin_eq(r, objs[:3] + objs[:3], 'x + x')
+        x += x
+        twin_eq(x, objs[:3] + objs[:3], 'x += x')
+        # --- pop with every in-range / out-of-range / negative index against a list oracle, all observables
+        #     read before the mutation as well
+        for n in range(0, 5):
+            for idx in list(range(-n - 2, n + 2)) + [None, 'name']:
+                c = newc(objs[:n])
+                want = objs[:n]
+                _coll_obs(c, names)
+                try:
+                    if idx is None:
+                        exp = want[-1] if want else IndexError
+                        key = None
+                    elif idx == 'name':
+                        key = f'n{n // 2}'
+                        exp = want[n // 2] if n > 0 else KeyError
+                    else:
+                        key = idx
+                        exp = want[idx] if -n <= idx < n else IndexError
+                    got = c.pop(key) if key is not None else c.pop()
+                except Exception as ex:
+                    got = type(ex)
+                if got is not exp:
+                    bad('pop', 'wrong-object-or-error', f'n={n} index={idx}')
+                if not isinstance(got, type):
+                    want = [o for o in want if o is not got]
+                twin_eq(c, want, f'after pop({idx}) on {n} objects')
+                ctx.case({'probe': 'pop', 'class': label, 'n': n, 'idx': idx})
+        # --- two instances built before first use, used alternately, observables read before every mutation
+        for rep in range(ctx.budget(6, 40)):
+            a, b = newc(), newc()
+            wa, wb = [], []
+            for step in range(12):
+                for c, w, other in ((a, wa, b), (b, wb, a)):
+                    _coll_obs(c, names)
+                    _coll_obs(other, names)
+                    r = rng.random()
+                    if r < 0.5 or not w:
+                        o = rng.choice([o for o in objs if o not in w] or objs)
+                        if o in w:
+                            continue
+                        c.add(o)
+                        w.append(o)
+                    elif r < 0.8:
+                        i = rng.randrange(-len(w), len(w))
+                        got = c.pop(i) if rng.random() < 0.5 else c.pop(w[i].name)
+                        if got is not w[i]:
+                            bad('pop', 'wrong-object-or-error', f'alternating instances, index {i}')
+                        del w[i]
+                    else:
+                        nl = c.name_list
+                        nl.append('intruder')          # returned values are owned by the caller
+                        cp = c.copy()
+                        cp.add(rng.choice([o for o in objs if o not in w] or [mk(9)])) if len(w) < 6 else None
+                    twin_eq(c, w, 'alternating instances (own history)')
+                twin_eq(a, wa, 'alternating instances: first instance after a step on the second')
+            ctx.case({'probe': 'two-instances', 'class': label, 'rep': rep})
+    # plain ObjectCollection: constructor / operand aliasing
+    lst = [1, 2, 3]
+    oc = ObjectCollection(lst, obj_type=int)
+    lst.append(4)
+    oc2 = oc + [5]
+    if list(oc.objects) != [1, 2, 3] or list(oc2.objects) != [1, 2, 3, 5] or oc.objects is lst:
+        ctx.violation('ObjectCollection.__init__', 'aliases-caller-list', 'list mutated afterwards shows in the collection',
+                      case={'kind': 'probe', 'part': 'collections', 'class': 'ObjectCollection'})
+
+
+def probe_keys(ctx):
+    from skyllh.core.py import make_dict_hash
+    from skyllh.core.pdf import PDFSet, PDF, PDFAxes, PDFAxis
+    from skyllh.core.config import Config
+
+    class P(PDF):
+        def __init__(self, pid, axes):
+            self.pid = pid
+            self._ax = axes
+
+        @property
+        def axes(self):
+            return self._ax
+
+        def assert_is_valid_for_trial_data(self, *a, **k):
+            pass
+
+        def get_pd(self, *a, **k):
+            pass
+    case = {'kind': 'probe', 'part': 'keys'}
+    # make_dict_hash: a function of the CURRENT content; the argument is an input
+    d = {'a': 1.0, 'b': 2.0}
+    h1, h1b = make_dict_hash(d), make_dict_hash(d)
+    make_dict_hash({'zz': 5})
+    if h1 != h1b or h1 != make_dict_hash(d) or d != {'a': 1.0, 'b': 2.0}:
+        ctx.violation('make_dict_hash', 'repeat-differs-or-modifies-argument', 'same dictionary hashed three times', case=case)
+    d['a'] = 3.0
+    if make_dict_hash(d) != make_dict_hash({'b': 2.0, 'a': 3.0}) or make_dict_hash(d) == h1:
+        ctx.violation('make_dict_hash', 'stale-after-dictionary-mutation',
+                      'hash of a mutated dictionary differs from the hash of a fresh equal one', case=case)
+    del d['b']
+    if make_dict_hash(d) != make_dict_hash({'a': 3.0}):
+        ctx.violation('make_dict_hash', 'stale-after-dictionary-mutation', 'after del', case=case)
+    for _ in range(50):       # short-lived dictionaries (re-used ids)
+        t = {'k': _}
+        if make_dict_hash(t) != make_dict_hash({'k': _}):
+            ctx.violation('make_dict_hash', 'stale-after-dictionary-mutation', 'short-lived dictionaries', case=case)
+    # PDFSet: two instances built before first use, alternately; key dictionaries mutated afterwards
+    ax = PDFAxes([PDFAxis('a', 0, 1)])
+    cfg = Config()
+    s1, s2 = PDFSet(param_grid_set=None, cfg=cfg), PDFSet(param_grid_set=None, cfg=cfg)
+    p1, p2, p3 = P(1, ax), P(2, ax), P(3, ax)
+    g = {'gamma': 2.0, 'e': 1.0}
+    s1.add_pdf(p1, g)
+    if g != {'gamma': 2.0, 'e': 1.0}:
+        ctx.violation('PDFSet.add_pdf', 'modifies-gridparams-argument', str(g), case=case)
+    if (g in s2) or len(s2.pdf_keys) != 0 or list(s2.values()):
+        ctx.violation('PDFSet', 'state-shared-between-instances', 'a PDF added to one set is visible in another', case=case)
+    try:
+        s2.add_pdf(p2, g)
+        ok = s1.get_pdf(g) is p1 and s2.get_pdf(g) is p2 and s1.get_pdf(dict(reversed(list(g.items())))) is p1
+    except Exception:
+        ok = False
+    if not ok:
+        ctx.violation('PDFSet', 'state-shared-between-instances', 'two sets used alternately with the same key', case=case)
+    g['gamma'] = 3.0          # the caller re-uses and mutates the dictionary object used as key
+    try:
+        ok = (s1.get_pdf({'gamma': 2.0, 'e': 1.0}) is p1 and s1.get_pdf({'e': 1.0, 'gamma': 2.0}) is p1
+              and (g not in s1) and ({'gamma': 2.0, 'e': 1.0} in s1))
+        s1.add_pdf(p3, g)
+        ok = ok and s1.get_pdf(g) is p3 and s1.get_pdf({'gamma': 3.0, 'e': 1.0}) is p3 \
+            and s1.get_pdf({'gamma': 2.0, 'e': 1.0}) is p1 and s2.get_pdf({'gamma': 2.0, 'e': 1.0}) is p2 \
+            and ({'gamma': 3.0, 'e': 1.0} not in s2)
+    except Exception:
+        ok = False
+    if not ok:
+        ctx.violation('PDFSet.get_pdf', 'lookup-follows-mutated-key-dictionary',
+                      'lookup after the dictionary object used in add_pdf was mutated', case=case)
+    k1 = s1.pdf_keys
+    k1.append(0)
+    r1, r2 = s1.get_pdf(g), s1.get_pdf(g)
+    if len(s1.pdf_keys) != 2 or r1 is not r2 or s1.make_key(g) != s1.make_key(dict(g)) or g != {'gamma': 3.0, 'e': 1.0}:
+        ctx.violation('PDFSet', 'repeat-differs-or-returned-list-aliased', 'pdf_keys / get_pdf / make_key repeated', case=case)
+    ctx.case({'probe': 'keys'})
+
+
+def probe_stages(ctx):
+    import numpy as np
+    from skyllh.core.datafields import DataFieldStages as DFS, DataFields
+    case = {'kind': 'probe', 'part': 'stages'}
+    seqs = [[0], [0, 0], [3], [3, 12], [15, 0], [5, 10], [1, 2, 4, 8], [], [6, 6], [0, 7, 0]]
+    for s in range(16):
+        for ms in seqs:
+            want = (all(bits_and(s, m) for m in ms), any(bits_or(s, m) for m in ms))
+            for flavour in ('list', 'tuple', 'ndarray', 'npint-elems', 'npint-stage'):
+                if flavour == 'ndarray' and not ms:
+                    continue
+                arg = {'list': list(ms), 'tuple': tuple(ms), 'ndarray': np.array(ms, dtype=np.int64),
+                       'npint-elems': [np.int64(m) for m in ms], 'npint-stage': list(ms)}[flavour]
+                st = np.int64(s) if flavour == 'npint-stage' else s
+                snap = arg.copy() if isinstance(arg, np.ndarray) else list(arg)
+                got = []
+                for _ in range(2):             # repeat with the SAME argument object, interleaved with other calls
+                    got.append((bool(DFS.and_check(st, arg)), bool(DFS.or_check(st, arg))))
+                    DFS.and_check(15 - s, [1, 2])
+                    DFS.or_check(s, 5)
+                same = np.array_equal(arg, snap) if isinstance(arg, np.ndarray) else list(arg) == snap
+                if not same:
+                    ctx.violation('DataFieldStages.and_check', 'modifies-stages-argument', f'{flavour} {ms}', case=case)
+                if got[0] != got[1]:
+                    ctx.violation('DataFieldStages.and_check', 'repeat-differs', f'stage {s} {flavour} {ms}', case=case)
+                if got[0] != want:
+                    ctx.violation('DataFieldStages.and_check', 'sequence-not-all' if got[0][0] != want[0] else 'sequence-not-any',
+                                  f'stage {s} {flavour} {ms}: {got[0]}', case=dict(case, stage=s, stages=ms, flavour=flavour))
+                ctx.evaluations += 1
+        for m in (0, 3, 5, 12, 15):            # int masks incl. 0 and multi-bit, numpy stage
+            if (bool(DFS.and_check(np.int64(s), m)), bool(DFS.or_check(np.int64(s), m))) != (bits_and(s, m), bits_or(s, m)):
+                ctx.violation('DataFieldStages.and_check', 'not-bitwise-all', f'numpy stage {s} mask {m}', case=case)
+    fields = {'a': 1, 'b': 6, 'c': 0, 'd': 8}
+    snap = dict(fields)
+    r1 = DataFields.get_joint_names(fields, [2, 8])
+    r1.append('x')
+    r2 = DataFields.get_joint_names(fields, (2, 8))
+    if fields != snap or list(fields) != list(snap) or r2 != ['b', 'd'] or DataFields.get_joint_names(fields, 0) != []:
+        ctx.violation('DataFields.get_joint_names', 'modifies-argument-or-returned-list-aliased', str(r2), case=case)
+    ctx.case({'probe': 'stages'})
+
+
+def probe_config(ctx):
+    import copy
+    import sys
+    from astropy import units
+    from skyllh.core import config
+    case = {'kind': 'probe', 'part': 'config'}
+    pristine = copy.deepcopy(config._BASECONFIG)
+    saved_path = list(sys.path)
+
+    def observe(c):
+        def rc(f):
+            try:
+                return f()
+            except Exception as ex:
+                return type(ex).__name__
+        return [copy.deepcopy(dict(c)), rc(lambda: c.is_tracing_enabled), rc(c.get_wd), rc(lambda: c.wd_filename('f.txt')),
+                rc(lambda: c.to_internal_time_unit(units.day))]
+    edits = [lambda c: c.enable_tracing(), lambda c: c.set_ncpu(3), lambda c: c.set_wd('/tmp/c20-a'),
+             lambda c: c.set_internal_units(time_unit=units.day, angle_unit=units.deg),
+             lambda c: c['project'].__setitem__('working_directory', '/tmp/c20-b'),
+             lambda c: c['units']['internal'].__setitem__('time', units.h),
+             lambda c: c.set_enable_tracing(False), lambda c: c['datafields'].__setitem__('run', 15),
+             lambda c: c.set_wd(None), lambda c: c.disable_tracing()]
+    try:
+        # template pollution: instances created before / between / after the edits of another instance
+        before = config.Config()
+        a = config.Config()
+        done = []
+        for i, e in enumerate(edits):
+            observe(a)                        # every observable read BEFORE the mutation
+            ob = observe(before)
+            e(a)
+            done.append(e)
+            twin = config.Config()            # a fresh instance made after the edits ...
+            if dict(twin) != pristine or config._BASECONFIG != pristine:
+                ctx.violation('Config.__init__', 'template-polluted-by-other-instance',
+                              f'Config() differs from the base configuration after edit {i} of another instance', case=case)
+            if observe(before) != ob:
+                ctx.violation('Config', 'edit-visible-in-other-instance', f'edit {i} changed an instance created before', case=case)
+            for d in done:                    # ... replays the history: a must equal its fresh twin
+                d(twin)
+            o1, o2, ot = observe(a), observe(a), observe(twin)
+            if o1 != o2:
+                ctx.violation('Config', 'repeat-differs', f'observables read twice after edit {i}', case=case)
+            if o1 != ot:
+                ctx.violation('Config', 'differs-from-fresh-twin', f'after edit {i}: observables differ from a fresh instance '
+                              'with the same edit history', case=case)
+            if set(dict_ids(a)) & (set(dict_ids(twin)) | set(dict_ids(before)) | set(dict_ids(config._BASECONFIG))):
+                ctx.violation('Config', 'instances-share-mutable-state', f'after edit {i}', case=case)
+            ctx.case({'probe': 'config-edit', 'i': i})
+        # from_dict: nested user dictionaries mutated afterwards; the argument is an input
+        user = {'debugging': {'enable_tracing': True}, 'extra': {'deep': {'x': [1, 2]}}, 'project': {'working_directory': '/u'}}
+        usnap = copy.deepcopy(user)
+        c1 = config.Config.from_dict(user)
+        if user != usnap:
+            ctx.violation('Config.from_dict', 'modifies-user-dictionary', '', case=case)
+        o1 = observe(c1)
+        user['debugging']['enable_tracing'] = False
+        user['extra']['deep']['x'].append(3)
+        user['extra']['deep']['y'] = 1
+        del user['project']['working_directory']
+        c2 = config.Config.from_dict(usnap)
+        if observe(c1) != o1 or observe(c1) != observe(c2):
+            ctx.violation('Config.from_dict', 'follows-user-dictionary-mutated-afterwards', '', case=case)
+        c1['extra']['deep']['x'].append(9)
+        c1.disable_tracing()
+        fresh = config.Config()
+        if user['extra']['deep']['x'] != [1, 2, 3] or usnap['extra']['deep']['x'] != [1, 2] or dict(fresh) != pristine \
+                or c2['extra']['deep']['x'] != [1, 2] or c2.is_tracing_enabled is not True:
+            ctx.violation('Config.from_dict', 'edit-visible-in-user-dictionary-or-other-instance', '', case=case)
+        ctx.case({'probe': 'config-from-dict'})
+    finally:
+        sys.path[:] = saved_path
+
+
+def probe_datasets(ctx):
+    from skyllh.core.dataset import Dataset, DatasetCollection
+    from skyllh.core.config import Config
+    case = {'kind': 'probe', 'part': 'datasets'}
+    cfg = Config()
+
+    def ds(n):
+        return Dataset(cfg=cfg, name=n, exp_pathfilenames=None, mc_pathfilenames=None, livetime=1.0,
+                       default_sub_path_fmt='x', version=1)
+    a, b = DatasetCollection('a'), DatasetCollection('b')
+    d1, d2, d3 = ds('d1'), ds('d2'), ds('d1')
+    lst = [d1, d2]
+    a.add_datasets(lst)
+    if lst != [d1, d2] or b.dataset_names != [] or a.dataset_names != ['d1', 'd2']:
+        ctx.violation('DatasetCollection', 'state-shared-between-instances-or-argument-modified', 'after add_datasets', case=case)
+    lst.clear()
+    try:
+        b += d3                                   # same name as d1, other collection: must be accepted
+        ok = b.get_dataset('d1') is d3 and a.get_dataset('d1') is d1 and a['d2'] is d2 and a.dataset_names == ['d1', 'd2']
+        nl = a.dataset_names
+        nl.append('x')
+        got = a.get_datasets(['d2', 'd1'])
+        got.clear()
+        a.remove_dataset('d1')
+        ok = ok and a.dataset_names == ['d2'] and b.dataset_names == ['d1'] and b.get_dataset('d1') is d3
+    except Exception:
+        ok = False
+    if not ok:
+        ctx.violation('DatasetCollection', 'state-shared-between-instances', 'two collections used alternately', case=case)
+    ctx.case({'probe': 'datasets'})
+
+
 # ============================================================== driver
 def run(ctx):
     import time
-    for name, part in (('stages', run_stages), ('hash', run_hash), ('datasets', run_datasets),
+    for name, part in (('probes', run_probes), ('stages', run_stages), ('hash', run_hash), ('datasets', run_datasets),
                        ('collections', run_collections), ('config', run_config)):
         t = time.time()
         part(ctx)
@@ -1360,5 +1757,7 @@ def replay(ctx, rp):
         return run_config(ctx)
     if kind == 'dataset':
         return run_datasets(ctx)
+    if kind == 'probe':
+        return run_probes(ctx)
     ctx.notes.append('replay: no single input in the file (broken obligation); re-running the full check')
     run(ctx)
